@@ -137,6 +137,7 @@ def evaluate(text, stem, datadir, schema_names, wd):
     seen_schemas = []
     created_any = None
     split = False
+    split_probs = []
     for d in dirs:
         base = os.path.basename(d)
         if not os.path.isabs(d) or os.path.realpath(os.path.dirname(d)) != os.path.realpath(scan_dir):
@@ -193,8 +194,8 @@ def evaluate(text, stem, datadir, schema_names, wd):
             numbered = sorted(f for f in created if re.match(r"Sdai%s_\d+\.(h|cc)$" % re.escape(up), f))
             if numbered:
                 split = True
-                probs.append("%s: fixed per-schema files listed but not created: %s; exp2cxx wrote numbered pass files instead: %s"
-                             % (base, missing_fixed[:6], numbered[:6]))
+                split_probs.append("%s: fixed per-schema files listed but not created: %s; exp2cxx wrote numbered pass files instead: %s"
+                                   % (base, missing_fixed[:6], numbered[:6]))
             else:
                 probs.append("%s: fixed per-schema files listed but not created: %s" % (base, missing_fixed[:8]))
         listed_union |= per
@@ -215,8 +216,13 @@ def evaluate(text, stem, datadir, schema_names, wd):
                 pass    # the numbered pass files already reported
             else:
                 probs.append("created by exp2cxx, neither listed nor a known auxiliary file: %s" % other[:8])
-    if split:
+    if split and not probs:
+        # only the fixed per-schema files are affected by the numbered passes (open finding): the per-entity / per-type sets
+        # above are asserted for these files like for any other
+        probs.extend(split_probs)
         return done(SIG_SPLIT)
+    if split:
+        info["split_and_more"] = True
     return done()
 
 
@@ -270,9 +276,8 @@ def setup():
 
 def make_strategy(ctx):
     cfg = {"p_multi": 45, "p_prone": 50}
-    if SIG_SPLIT in ctx.open_sigs:
-        cfg["prone_excluded"] = EXCL_SPLIT
-        cfg["p_probe"] = 15
+    # (files whose schemas depend on each other are NOT excluded although finding F75 is open: the finding only concerns the fixed
+    # per-schema files, which evaluate() separates from the per-entity / per-type comparison)
     if SIG_DIRS in ctx.open_sigs:
         cfg["shortstem_excluded"] = EXCL_DIRS
         cfg["p_probe_stem"] = 15
